@@ -73,7 +73,7 @@ mod verif_capi_lib_oxide {
             let wb: i32 = kani::any();
             let rc = crate::mz_inflateInit2(&mut stream, wb);
             if wb != 15 && wb != -15 {
-                assert!(rc == MZ_PARAM_ERROR, "OBL:capi.inflate_init_rejects_window_bits_other_than_plus_minus_15 [C17]");
+                assert!(rc == MZ_PARAM_ERROR, "OBL:capi.inflate_init_rejects_window_bits_other_than_plus_minus_15 [C17 C11]");
                 return;
             }
             assert!(rc == MZ_OK && stream.state.is_some() && stream.total_in == 0 && stream.total_out == 0, "OBL:capi.inflate_init_ok [C17]");
@@ -93,6 +93,7 @@ mod verif_capi_lib_oxide {
             stream.avail_out = avail_out;
             stream.total_in = kani::any();
             stream.total_out = kani::any();
+            stream.adler = 0xDEAD_BEEF; // whatever the caller left there: every completed call must overwrite it
             let (ti0, to0) = (stream.total_in, stream.total_out);
             let (ni0, no0) = (stream.next_in as usize, stream.next_out as usize);
             let custom_alloc: bool = kani::any();
@@ -124,6 +125,8 @@ mod verif_capi_lib_oxide {
             assert!(stream.next_out as usize == no0 + w && stream.avail_out as usize == avail_out as usize - w && stream.total_out == to0.wrapping_add(w as _),
                 "OBL:capi.output_pointer_advances_by_drop_in_avail_and_rise_in_total [C17]");
             assert!(rc == STATUS.load(Relaxed), "OBL:capi.return_code_is_the_rust_status [C17]");
+            // the decoder behind the model is still at Start (no checksum yet): the field must read 0 -- on error returns too
+            assert!(stream.adler == 0, "OBL:capi.adler_field_refreshed_from_the_decoder_on_every_return_also_errors [C16 C17]");
             let want_flush = match flush { 0 => 0, 1 | 2 => 2, 3 => 3, _ => 4 };
             assert!(FLUSH.load(Relaxed) == want_flush, "OBL:capi.flush_value_mapping [C17]");
             assert!(stream.state.is_some() && stream.data_type == StateTypeEnum::InflateType, "OBL:capi.state_handed_back_to_the_c_struct [C17]");
